@@ -19,6 +19,32 @@ fn args() -> (String, BTreeMap<String, String>) {
 }
 
 fn main() {
+    // A valid instruction of a driver's own preparation that the program refuses is data, not a crash: the trace
+    // written so far is kept and a `setup_failed` event appended, which the trace specification rejects.
+    let (_, m0) = args();
+    let out0 = m0.get("out").cloned();
+    let stats0 = m0.get("stats").cloned();
+    let r = std::panic::catch_unwind(run_main);
+    if let Err(p) = r {
+        let msg = p.downcast_ref::<String>().cloned().or_else(|| p.downcast_ref::<&str>().map(|s| s.to_string())).unwrap_or_default();
+        if let (true, Some(out)) = (msg.starts_with("setup step "), out0) {
+            use std::io::Write;
+            let mut f = std::fs::OpenOptions::new().append(true).create(true).open(&out).unwrap();
+            let what: String = msg.chars().take(300).collect();
+            writeln!(f, "{}", serde_json::json!({"k": "setup_failed", "what": what})).unwrap();
+            if let Some(s) = stats0 {
+                if !std::path::Path::new(&s).exists() {
+                    std::fs::write(s, "{\"stats\": {\"resets\": 0, \"events\": 0, \"by_ix\": {}}, \"samples\": []}").unwrap();
+                }
+            }
+            eprintln!("setup failed: {what}");
+            std::process::exit(0);
+        }
+        std::process::exit(101);
+    }
+}
+
+fn run_main() {
     let (cmd, m) = args();
     let get = |k: &str, d: &str| m.get(k).cloned().unwrap_or(d.to_string());
     let seed: u64 = get("seed", "1").parse().unwrap();
